@@ -217,7 +217,7 @@ def _nid(name) -> str:
     return str(ID.get(str(name), "?" + str(name)))
 
 
-def _observe_schema(conn, d: int, s: int, only=None) -> dict:
+def _observe_schema(conn, d: int, s: int, only=None, probes=None) -> dict:
     """surfaces of one schema, read through the connection whose current database is `d`.
     only=None: every listing and every object; only=[names]: information_schema.tables + those objects"""
     D, S = NAME[d], NAME[s]
@@ -252,6 +252,12 @@ def _observe_schema(conn, d: int, s: int, only=None) -> dict:
             cur, _ = rows(f"select * from {D}.{S}.{N}")
             star = [f"{_nid(x.name)}:{DESC_CODE.get(x.type_code, '?' + str(x.type_code))}" for x in cur.description]
             objs[nid] = {"describe": desc, "info": info, "pos_ok": pos == list(range(1, len(pos) + 1)), "star": star}
+            if probes is not None:
+                # ONE long-lived cursor per object re-executes the identical text after every statement touching the object and reads
+                # its description each time (nothing else is ever described on that cursor)
+                pc = probes.setdefault((d, s, nid), conn.cursor())
+                pc.execute(f"select * from {D}.{S}.{N}")
+                objs[nid]["star_probe"] = [f"{_nid(x.name)}:{DESC_CODE.get(x.type_code, '?' + str(x.type_code))}" for x in pc.description]
         except Exception as e:
             objs[nid] = {"error": f"{type(e).__name__}: {str(e)[:120]}"}
     out["objects"] = objs
@@ -265,6 +271,7 @@ def real_history(ops: list[dict]) -> list[dict]:
     out = []
     with fakesnow.patch():
         conns = {d: snowflake.connector.connect(database=NAME[d], schema="S1") for d in DBS}
+        probes: dict = {}
         for d in DBS:
             conns[d].cursor().execute(f"create schema {NAME[d]}.S2")
         for i, op in enumerate(ops):
@@ -284,7 +291,7 @@ def real_history(ops: list[dict]) -> list[dict]:
                     if last or (d, s) in touched:
                         only = None if last else [t[2] for t in op["touch"] if (t[0], t[1]) == (d, s)]
                         try:
-                            obs["schemas"][f"{d}.{s}"] = _observe_schema(conns[d], d, s, only)
+                            obs["schemas"][f"{d}.{s}"] = _observe_schema(conns[d], d, s, only, probes)
                         except Exception as e:
                             obs["schemas"][f"{d}.{s}"] = {"error": f"{type(e).__name__}: {str(e)[:150]}"}
             if last:
@@ -408,6 +415,10 @@ def _check_history(chk, ops, real, reply) -> None:
                         "info": [f"{c[0]}:{('t' + c[3]) if c[1][0] == 't' else c[1]}" for c in m["cols"]], "comment": m["ic"]}
                 got = {"describe": o["describe"], "info": o["info"], "comment": comments.get(n, "?")}
                 star_want = [f"{c[0]}:{_base(c[1])}" for c in m["cols"]]
+                if o.get("star_probe", star_want) != star_want:
+                    chk.violation(f"{where}: a long-lived cursor re-executing `SELECT * FROM {key}` reports description {o['star_probe']}, the catalog now has "
+                                  f"{star_want} (a fresh cursor reports {o['star']})", {**case, "step": i}, broken="C09_listing (description of SELECT * after DDL, same cursor)")
+                    return
                 if o["star"] != star_want or not o["pos_ok"]:
                     chk.violation(f"{where}: description of SELECT * FROM {key} is {o['star']} (ordinal positions ok: {o['pos_ok']}), the catalog has {star_want}",
                                   {**case, "step": i}, broken="C09_listing (column order / names / base types)")
@@ -467,7 +478,7 @@ def _check_cross(chk, real) -> None:
 
 def _histories(chk) -> list:
     rnd = random.Random(chk.seed)
-    n = 45 if chk.tier == "quick" else 300
+    n = 70 if chk.tier == "quick" else 300
     hs = corpus()
     for _ in range(n):
         hs.append(gen_history(rnd, rnd.randint(8, 30)))
